@@ -5,7 +5,10 @@ import io
 import json
 import logging
 import sys
+import threading
+import types
 import warnings
+from concurrent.futures import ThreadPoolExecutor
 
 import neuroml
 import neuroml.build_time_validation as btv
@@ -77,26 +80,127 @@ def run_factory(op):
     return r
 
 
+def run_add(op):
+    """parent.add(<class or name>, **kwargs) on a freshly constructed parent: the factory path inside add"""
+    r = {}
+    parent = getattr(nml, op["parent"])(**{k: H.conv(v) for k, v in op.get("parent_kw", [])})
+    cls = getattr(nml, op["cls"], None)
+    kw = {k: H.conv(v) for k, v in op["kw"]}
+    o = op.get("_oracle") or {"fresh_error": "no oracle"}
+    if "fresh_error" in o:
+        r["direct_exc"] = o["fresh_error"].split(":")[0]
+    else:
+        r["vchild"] = o["vchild"]
+    sw = btv.ENABLED
+    ret = None
+    with warnings.catch_warnings(record=True):
+        warnings.simplefilter("always")
+        try:
+            ret = parent.add(op["cls"] if op["form"] == "str" else cls, validate=op["validate"], **kw)
+            r["code"] = [0, []]
+        except BaseException as e:  # noqa
+            r["code"] = H.classify(e)
+            r["exc"] = type(e).__name__ + ": " + str(e)[:160]
+            r["exc_type"] = type(e).__name__
+    r["switch_unchanged"] = btv.ENABLED == sw
+    if ret is not None:
+        r["ret_cls"] = type(ret).__name__
+        r["stored"] = any(ret is x or (isinstance(x, list) and any(ret is y for y in x)) for x in vars(parent).values())
+    return r
+
+
+def observe():
+    """the switch as the calling thread sees it: [module attribute, get_build_time_validation()]"""
+    out = []
+    for f in (lambda: btv.ENABLED, neuroml.get_build_time_validation):
+        try:
+            out.append(f())
+        except BaseException as e:  # noqa
+            out.append("error:" + type(e).__name__)
+    return [x if isinstance(x, (bool, str)) else repr(x) for x in out]
+
+
+class Threads:
+    """where an operation runs: "main"; "new" = a threading.Thread started for it and joined; "pool:<x>" = the single worker of
+    a ThreadPoolExecutor that lives until the end of the session.  Operations never overlap in time: the only question is
+    whether all threads share the one switch."""
+
+    def __init__(self):
+        self.pools = {}
+
+    def run(self, where, fn):
+        if where in (None, "main"):
+            return fn()
+        if where == "new":
+            box = {}
+
+            def target():
+                try:
+                    box["v"] = fn()
+                except BaseException as e:  # noqa
+                    box["e"] = e
+            t = threading.Thread(target=target)
+            t.start()
+            t.join()
+            if "e" in box:
+                raise box["e"]
+            return box["v"]
+        if where not in self.pools:
+            self.pools[where] = ThreadPoolExecutor(max_workers=1)
+        return self.pools[where].submit(fn).result()
+
+    def survey(self):
+        out = {"main": observe()}
+        for w in sorted(self.pools):
+            out[w] = self.run(w, observe)
+        out["new"] = self.run("new", observe)
+        return out
+
+    def close(self):
+        for p_ in self.pools.values():
+            p_.shutdown(wait=True)
+
+
+def run_op(op):
+    r = {}
+    if op["op"] == "enable":
+        neuroml.enable_build_time_validation()
+    elif op["op"] == "disable":
+        neuroml.disable_build_time_validation()
+    elif op["op"] == "set":
+        btv.ENABLED = bool(op["value"])
+    elif op["op"] == "factory":
+        r = run_factory(op)
+    elif op["op"] == "add":
+        r = run_add(op)
+    elif op["op"] == "validate":      # construct directly and call validate(): a type gets validated in this process
+        o = getattr(nml, op["cls"])(**{k: H.conv(v) for k, v in op["kw"]})
+        r["valid"] = H.is_valid(o)
+    r["switch"], r["getter"] = observe()      # as seen by the thread that ran the operation
+    return r
+
+
 def run_session(sess):
     res = []
-    for op in sess["ops"]:
-        sys.stdout = io.StringIO()
-        r = {}
-        if op["op"] == "enable":
-            neuroml.enable_build_time_validation()
-        elif op["op"] == "disable":
-            neuroml.disable_build_time_validation()
-        elif op["op"] == "set":
-            btv.ENABLED = bool(op["value"])
-        elif op["op"] == "factory":
-            r = run_factory(op)
-        elif op["op"] == "validate":      # construct directly and call validate(): a type gets validated in this process
-            o = getattr(nml, op["cls"])(**{k: H.conv(v) for k, v in op["kw"]})
-            r["valid"] = H.is_valid(o)
-        r["switch"] = btv.ENABLED
-        r["getter"] = neuroml.get_build_time_validation()
-        res.append(r)
+    T = Threads()
+    try:
+        for op in sess["ops"]:
+            sys.stdout = io.StringIO()
+            r = T.run(op.get("thread"), lambda op=op: run_op(op))
+            if sess.get("threads"):
+                r["seen"] = T.survey()
+            res.append(r)
+    finally:
+        T.close()
     return res
+
+
+def switch_runtime():
+    """the switch as the interpreter holds it: a bool in the dictionary of a plain module, reached by the package attribute"""
+    return {"module_type_plain": type(btv) is types.ModuleType, "package_type_plain": type(neuroml) is types.ModuleType,
+            "in_module_dict": type(vars(btv).get("ENABLED")).__name__,
+            "same_module": neuroml.build_time_validation is btv and sys.modules.get("neuroml.build_time_validation") is btv,
+            "module_getattr": "__getattr__" in vars(btv) or "__getattr__" in vars(neuroml)}
 
 
 def main():
@@ -106,10 +210,15 @@ def main():
     sys.stdout = io.StringIO()
     initial = btv.ENABLED
     attrs0 = H.class_attr_snapshot()
+    runtime = switch_runtime()
+    oracles = {}
     for sess in P["sessions"]:      # fresh-process oracles first, while this process is pristine
         for op in sess["ops"]:
-            if op["op"] == "factory" and hasattr(nml, op["cls"]):
-                op["_oracle"] = H.class_oracle(op["cls"], op["kw"])
+            if op["op"] in ("factory", "add") and hasattr(nml, op["cls"]):
+                k = json.dumps([op["cls"], op["kw"]], sort_keys=True)
+                if k not in oracles:
+                    oracles[k] = H.class_oracle(op["cls"], op["kw"])
+                op["_oracle"] = oracles[k]
     out = []
     isolated_attrs = {}
     try:
@@ -140,7 +249,7 @@ def main():
     new = H.class_attr_diff(attrs0)
     for c, a in isolated_attrs.items():
         new[c] = sorted(set(new.get(c, [])) | set(a))
-    print(json.dumps({"results": out, "initial": initial, "new_class_attrs": new}))
+    print(json.dumps({"results": out, "initial": initial, "new_class_attrs": new, "switch_runtime": runtime}))
 
 
 if __name__ == "__main__":
